@@ -212,6 +212,15 @@ def listen_opts(config):
     return " ".join(o)
 
 
+CPROPS = ["sexp", "rmax", "mps", "tam"]     # session expiry, receive maximum, maximum packet size, topic alias maximum
+
+
+def cprops_of(m):
+    """CONNECT properties of the scenario as {name: value} (MQTT 5 codec only)"""
+    cp = m.get("cprops") or ()
+    return dict(cp) if not isinstance(cp, dict) else cp
+
+
 def model_admit_op(m):
     static, cb = CONFIGS[m["config"]]
     st = "-" if static is None else "S:" + ",".join("%s:%s" % (hx(u), hx(p)) for u, p in static)
@@ -225,6 +234,9 @@ def model_admit_op(m):
         cr = CREDS[m["creds"]]
         fr = "P,connect,%d,%d,%s,%d,%s,%s,%s" % (1 if m["level_ok"] else 0, m["ka"], hx(m["cid"]), m["clean"],
                                                   "L" if cr else "N", hx(cr[0]) if cr else "-", hx(cr[1]) if cr else "-")
+        cp = cprops_of(m)
+        if cp:
+            fr += "," + ",".join(str(cp[k]) if k in cp else "-" for k in CPROPS)
     elif f in KINDS:
         fr = "P,%s,1,0,-,0,N,-,-" % f
     elif f in ("nothing", "partial"):
@@ -257,6 +269,8 @@ def admission_scenario(i, m):
             item += ";user=%s;pass=%s" % (hx(cr[0]), hx(cr[1]))
         if not m["level_ok"]:
             item += ";v=" + other
+        for k, v in cprops_of(m).items():
+            item += ";%s=%d" % (k, v)
         first = item
     elif f in ("subscribe", "unsubscribe"):
         first = "%s;pkid=1;f=%s" % (f, hx("probe/#")) + (";q=0" if f == "subscribe" else "")
@@ -313,6 +327,17 @@ def gen_admission(ctx, rng):
     for (lv, level_ok, config, creds, cidk, ka) in combos:
         cid, clean = CIDS[cidk]
         ms.append(dict(lv=lv, first="connect", level_ok=level_ok, config=config, creds=creds, cidk=cidk, cid=cid, clean=clean, ka=ka))
+    # MQTT 5 CONNECT properties: their presence / value must not change the decision
+    for lv, level_ok in (("v5", True), ("v4", False)):
+        for cidk in ("normal", "normal-persist", "empty-clean", "empty-persist"):
+            for sexp in (None, 0, 1, 0xFFFFFFFF):
+                for extra in ((), (("rmax", 1), ("mps", 64), ("tam", 3)), (("rmax", 65535), ("mps", 268435460), ("tam", 65535))):
+                    for config, creds in ((("none", "absent"), ("static", "right"), ("static", "wrongpass")) if (full or not extra) else (("none", "absent"),)):
+                        if lv == "v4" and (extra or config != "none"):
+                            continue
+                        cid, clean = CIDS[cidk]
+                        cp = tuple(([("sexp", sexp)] if sexp is not None else []) + list(extra))
+                        ms.append(dict(lv=lv, first="connect", level_ok=level_ok, config=config, creds=creds, cidk=cidk, cid=cid, clean=clean, ka=5, cprops=cp))
     others = [k for k in KINDS if k != "connect"] + list(MALFORMED) + ["nothing", "partial", "eof"]
     for lv in ("v4", "v5"):
         for f in others:
@@ -370,18 +395,21 @@ def check_admission(ctx, scns=None):
         key = "%s:%s->%s" % (m["first"] if m["first"] != "connect" else "connect/" + m["config"] + "/" + m["creds"], md.split()[0], obs_c)
         hist[key] = hist.get(key, 0) + 1
         if m["first"] == "connect" and m["config"] != "none":
-            nontriv.add((m["lv"], m["level_ok"], m["config"], m["creds"], m["cidk"], m["ka"]))
+            nontriv.add((m["lv"], m["level_ok"], m["config"], m["creds"], m["cidk"], m["ka"], tuple(m.get("cprops") or ())))
+        elif m["first"] == "connect" and m.get("cprops"):
+            nontriv.add((m["lv"], m["level_ok"], m["config"], m["creds"], m["cidk"], m["ka"], tuple(m["cprops"])))
         panic = "panic" in s.get("join") or "panics=-" not in s.get("END")
         if (obs == "success" or seen) and not rule:
-            viol.append(("admission: %s listener, first packet %s (config %s, credentials %s, client id %r clean=%s, keep-alive %s, level ok=%s): "
+            viol.append(("admission: %s listener, first packet %s (config %s, credentials %s, client id %r clean=%s, keep-alive %s, level ok=%s%s): "
                          "%s although the rule forbids it" % (m["lv"], m["first"], m["config"], m["creds"], m["cid"], m["clean"], m["ka"], m["level_ok"],
+                                                             ", CONNECT properties %s" % dict(m["cprops"]) if m.get("cprops") else "",
                                                              "got a successful CONNACK" if obs == "success" else "its SUBSCRIBE/PUBLISH reached the routing core"),
                          s.replay_text("a connection that must not be admitted was admitted")))
         elif obs_c != exp or not fence_ok or (obs == "success") != seen or panic:
             corr.append(("correspondence-only: admission scenario %s: model says %s (expect %s), implementation %s, intruder seen=%s, fence ok=%s, %s / %s" % (
                 s.name, md, exp, obs, seen, fence_ok, s.get("join"), s.get("END")), s.replay_text("real task and Stack.Model.admission disagree")))
     ctx.cov["stack_admission"] = {"scenarios": len(scns), "distinct_nontrivial": len(nontriv),
-                                  "rule": "non-trivial = CONNECT against a listener with credentials or a callback configured; distinct parameter tuples",
+                                  "rule": "non-trivial = CONNECT against a listener with credentials or a callback configured, or carrying MQTT 5 CONNECT properties; distinct parameter tuples",
                                   "histogram": dict(sorted(hist.items())[:400]), "property_violations": len(viol), "correspondence_divergences": len(corr)}
     return viol + corr
 
@@ -944,6 +972,100 @@ def check_alias_one(s):
     return bad, harness
 
 
+# ------------------------------------------------------------------ BIG BATCHES (C20: everything the router emits reaches the wire)
+
+BIG_T = 4000      # the whole batch must arrive without any later traffic on the connection
+BIG_NS = [199, 200, 201, 400]
+BIG_WINDOW = 200   # max_outgoing_packet_count of the driver's RouterConfig
+
+
+def chunked_publishes(s, conn, items, label):
+    """QoS 1 publishes in writes of 50, each write followed by reading its 50 PUBACKs"""
+    for a in range(0, len(items), 50):
+        part = items[a:a + 50]
+        s.add("SEND %s %s" % (conn, " ".join(part)))
+        s.add("RECV %s %d %d" % (conn, len(part), T), "%s-%d" % (label, a))
+
+
+def big_scenario(i, m):
+    """N messages become due for one QoS 0 subscription at once (retained replay on SUBSCRIBE, or the
+    backlog of a persistent session on reconnect): with max_outgoing_packet_count = 200 the router
+    hands them over in buffer-full batches ending in Unschedule; then nothing else happens on that
+    connection.  Everything must still arrive."""
+    s = Scn("big", "big-%d" % i, prop="C20", **m)
+    n, sl, pl = m["n"], ("L4" if m["sv"] == "v4" else "L5"), ("L4" if m["pv"] == "v4" else "L5")
+    s.add("LISTEN L4 v4").add("LISTEN L5 v5")
+    s.add("OPEN p " + pl)
+    s.add("SEND p connect;id=%s;ka=60;clean=1" % hx("pub"))
+    s.add("RECV p 1 %d" % T, "pconn")
+    if m["kind"] == "retained":
+        chunked_publishes(s, "p", ["publish;t=%s;p=%s;q=1;pkid=%d;r=1" % (hx("big/r%d" % j), hx("b%d" % j), j % 60000 + 1) for j in range(n)], "packs")
+        s.add("OPEN s " + sl)
+        s.add("SEND s connect;id=%s;ka=60;clean=1 subscribe;pkid=1;f=%s;q=0" % (hx("bigsub"), hx("big/#")))
+        s.add("RECV s %d %d" % (min(n, BIG_WINDOW) + 2, BIG_T), "batch")
+    else:
+        s.add("OPEN s0 " + sl)
+        s.add("SEND s0 connect;id=%s;ka=60;clean=0;sexp=3600 subscribe;pkid=1;f=%s;q=0" % (hx("bigsub"), hx("big/#")))
+        s.add("RECV s0 2 %d" % T, "sub0")
+        s.add("SEND s0 disconnect").add("EOF s0")
+        s.add("JOIN s0 %d" % T, "join0")
+        chunked_publishes(s, "p", ["publish;t=%s;p=%s;q=1;pkid=%d" % (hx("big/t"), hx("b%d" % j), j % 60000 + 1) for j in range(n)], "packs")
+        s.add("OPEN s " + sl)
+        s.add("SEND s connect;id=%s;ka=60;clean=0;sexp=3600" % hx("bigsub"))
+        s.add("RECV s %d %d" % (n + 1, BIG_T), "batch")
+    # nothing may be left over: a later message is the next thing the subscriber sees
+    s.add("SEND p publish;t=%s;p=%s;q=0" % (hx("big/mark"), hx(MARK)))
+    s.add("UNTIL s %s %d" % (hx(MARK), T), "fence")
+    return s.end()
+
+
+def gen_big(ctx, rng):
+    ms = []
+    for kind in ("retained", "backlog"):
+        for n in BIG_NS + ([1, 100, 198, 399, 401, 600] if ctx.thorough() else []):
+            for sv in ("v4", "v5"):
+                for pv in (("v4", "v5") if ctx.thorough() else (("v4", "v5")[rng.below(2)],)):
+                    ms.append(dict(kind=kind, n=n, sv=sv, pv=pv))
+    return [big_scenario(i, m) for i, m in enumerate(ms)]
+
+
+def check_big_one(s):
+    m = s.meta
+    bad, harness = [], []
+    end = s.get("END")
+    if "panics=-" not in end:
+        bad.append("a connection task panicked: " + end)
+    if "stuck=-" not in end:
+        harness.append("task stuck: " + end)
+    n = m["n"]
+    for lab in [l for l in s.labels if l.startswith("packs-")]:
+        ks = [k for k, _ in parse_recv(s.get(lab))]
+        if any(k != "puback" for k in ks) or not ks:
+            harness.append("publisher did not get its PUBACKs: %s" % s.get(lab)[:160])
+    items = parse_recv(s.get("batch"))
+    head = 2 if m["kind"] == "retained" else 1
+    want_head = ["connack", "suback"][:head]
+    ks = [k for k, _ in items]
+    pubs = [(unhx(d.get("t", "-")).decode("utf-8", "replace"), unhx(d.get("p", "-")).decode("utf-8", "replace")) for k, d in items if k == "publish"]
+    if m["kind"] == "retained":
+        exp = [("big/r%d" % j, "b%d" % j) for j in range(n)]
+        # retained replay: order is the router's HashMap order, and (property C15: "provided those fit in
+        # its delivery window") the router drops what exceeds max_outgoing_packet_count = 200 of the driver's config
+        same = len(set(pubs)) == len(pubs) == min(n, BIG_WINDOW) and set(pubs) <= set(exp) and ks[:head] == want_head
+    else:
+        exp = [("big/t", "b%d" % j) for j in range(n)]
+        same = pubs == exp and ks[:head] == want_head
+    if not same:
+        tail = ks[-1] if ks else "nothing"
+        bad.append("%s subscriber, %s of %d messages (window 200) and then silence: received %d of them (%s%s) within %d ms without further traffic" % (
+            m["sv"], "retained replay" if m["kind"] == "retained" else "persistent-session backlog", n, len(pubs),
+            "head %s, " % ks[:head], "ended by " + tail, BIG_T))
+    f = parse_recv(s.get("fence"))
+    if same and ([k for k, _ in f] != ["publish"] or unhx(f[0][1].get("p", "-")) != MARK.encode()):
+        bad.append("after the batch the subscriber received %d unexpected packet(s) before the next message: %s" % (len(f) - 1, s.get("fence")[:200]))
+    return bad, harness
+
+
 WRITE_VARIANTS = [(v, k, p, x) for v in ("v4", "v5") for k in KINDS for p in (0, 1) for x in (0, 1)]
 
 
@@ -1016,7 +1138,7 @@ NOTIFS = ["fwd0", "fwd1", "unsched", "disc", "shadow"] + ["ack:" + k for k in ("
 def run(ctx):
     p_ok = ctx.proof_side(["Extract/StackX.vo"])
     ctx.assumptions += [
-        "the per-connection task runs on a current-thread tokio runtime over tokio::io::duplex streams against a real Router thread, in real time; absence of a message is observed through fences (a marker published after the task's JoinHandle resolved / on the same link), relying on flume being FIFO",
+        "the per-connection task runs on a current-thread tokio runtime over tokio::io::duplex streams against a real Router thread, in real time; absence of a message is observed through fences (a marker published after the task's JoinHandle resolved / on the same link), relying on flume being FIFO; the big-batch scenarios alone use a deadline (4 s, never waited for when the batch is delivered)",
         "the client side of each stream is rumqttc's public v4/v5 codec; byte-level correctness of the broker's codec is C04's claim, here only that what the writers produce decodes back to the same topic, payload and properties",
         "not modelled: tokio, TCP/TLS, the will-delay timer, the takeover channel race; message-expiry is compared with a 30 s tolerance (the broker subtracts the time spent in its log)",
         "the router never builds Ack::*WithProperties; the dispatch table is nevertheless checked for them against the real Protocol::write",
@@ -1042,7 +1164,7 @@ def run(ctx):
         elif "v4=Ok v5=Ok" not in a:
             n_corr.append("to_packet %s -> %s" % (x, a))
     # 2. end-to-end cross-version scenarios (corpus first)
-    scns = corpus_scenarios("cross") + corpus_scenarios("alias") + gen_cross(ctx, rng) + gen_alias(ctx, rng)
+    scns = corpus_scenarios("cross") + corpus_scenarios("alias") + corpus_scenarios("big") + gen_cross(ctx, rng) + gen_alias(ctx, rng) + gen_big(ctx, rng)
     run_scenarios(iexe, scns)
     fails, harness = [], []
     hist, nontriv = {}, set()
@@ -1051,6 +1173,16 @@ def run(ctx):
             harness.append((s, ["driver gave no output"]))
             continue
         m = s.meta
+        if s.group == "big":
+            bad, h = check_big_one(s)
+            key = "big %s" % m["kind"]
+            hist[key] = hist.get(key, 0) + 1
+            nontriv.add(("big", m["kind"], m["n"], m["sv"], m["pv"]))
+            if bad:
+                fails.append((s, bad))
+            elif h:
+                harness.append((s, h))
+            continue
         if s.group == "alias":
             bad, h = check_alias_one(s)
             key = "alias %s" % m["seq"]
@@ -1077,10 +1209,11 @@ def run(ctx):
     ctx.cov["rule"] = ("each scenario: v4 and v5 subscriber on x/#, one publisher (v4, or v5 with a subset of the 8 PUBLISH properties), QoS 0-2 with the full ack "
                        "exchange on both sides, PINGREQ/UNSUBSCRIBE at the end; %s. non-trivial = v5 publisher with a non-empty property subset; distinct (qos, subset, subscription-id) counted. "
                        "Topic-alias scenarios: one v5 publisher runs a sequence over its aliases (%s; alias values %s; QoS 0/1; v5 subscriber with and without topic_alias_max), every message must reach the v4 and the v5 subscriber under the topic the alias stood for at that moment. "
+                       "Big-batch scenarios: N in %s messages become due at once for one QoS 0 subscription (retained replay on SUBSCRIBE; backlog of a persistent session on reconnect; v4 and v5 subscriber) so that the router hands over buffer-full batches ending in Unschedule, then silence: all N (retained replay: the min(N, 200) that fit the delivery window, property C15) must arrive (in order for the backlog) within %d ms without any further traffic, and nothing else after them. "
                        "Boundary scenarios: v5 subscription identifiers %s; property block of the forwarded PUBLISH and its remaining length (by payload and by topic size) exactly %s bytes at the v4 / v5 subscriber. "
                        "Plus the real Protocol::write of V4 and V5 on every (packet kind, properties?, reason variant) against Stack.Model.has_arm, and on the same boundaries (subscription identifier, property block of PUBLISH and of every ack/CONNACK/DISCONNECT via a reason string, remaining length), decoded back with rumqttc." % (
                            "all 256 subsets x 3 QoS x subscription-id on/off" if ctx.thorough() else "all 256 subsets, one seeded QoS each (3 QoS for empty, full, full-minus-sid and each singleton)",
-                           ", ".join(ALIAS_SEQS), ALIAS_VALUES, SID_BOUNDS, BOUNDS))
+                           ", ".join(ALIAS_SEQS), ALIAS_VALUES, BIG_NS, BIG_T, SID_BOUNDS, BOUNDS))
     ctx.cov["exhaustive"] = True
     ctx.cov["exhaustive_part"] = "the 2^8 subsets of the PUBLISH properties"
     ctx.cov["scenario_histogram"] = hist
@@ -1088,7 +1221,7 @@ def run(ctx):
     ctx.cov["samples"] = [" ; ".join(scns[i].lines[8:12]) for i in (0, len(scns) // 2, len(scns) - 1)]
     ctx.log("cross scenarios=%d failures=%d harness-problems=%d dispatch: prop=%d corr=%d notif=%d" % (len(scns), len(fails), len(harness), len(d_prop), len(d_corr), len(n_corr)))
     if fails:
-        fails.sort(key=lambda x: (len(x[0].meta.get("props", ())), len(x[0].lines), x[0].meta["q"]))
+        fails.sort(key=lambda x: (len(x[0].meta.get("props", ())), len(x[0].text()), x[0].meta.get("q", 0)))
         s, bad = fails[0]
         ctx.violation("input", s.replay_text("; ".join(bad)), True, "%s: %s (%d failing scenarios)" % (s.name, "; ".join(bad)[:400], len(fails)))
     elif d_prop:
@@ -1163,12 +1296,14 @@ def relabel(s):
             m = dict(s.meta)
             m["props"] = tuple(m.get("props", ()))
             t = cross_scenario(0, {k: m[k] for k in ("pv", "q", "props", "subid", "psize", "cdlen", "tlen") if k in m})
+        elif s.group == "big":
+            t = big_scenario(0, {k: s.meta[k] for k in ("kind", "n", "sv", "pv")})
         elif s.group == "alias":
             t = alias_scenario(0, {k: s.meta[k] for k in ("seq", "q", "vals", "stam", "subq")})
         elif s.group == "wills":
             t = will_scenario(0, {k: s.meta[k] for k in ("lv", "will", "end", "nsubs", "traffic", "late", "subq", "anon") if k in s.meta})
         elif s.group == "admission":
-            m = {k: s.meta[k] for k in ("lv", "first", "level_ok", "config", "creds", "cidk", "ka")}
+            m = {k: s.meta[k] for k in ("lv", "first", "level_ok", "config", "creds", "cidk", "ka", "cprops") if k in s.meta}
             m["cid"], m["clean"] = CIDS[m["cidk"]] if m["cidk"] in CIDS else ("", 1)
             s.meta.update(m)
             t = admission_scenario(0, m)
@@ -1214,6 +1349,9 @@ def replay(ctx, path):
         msgs = []
         if s.group == "cross":
             bad, h = check_cross_one(s)
+            msgs = bad + h
+        elif s.group == "big":
+            bad, h = check_big_one(s)
             msgs = bad + h
         elif s.group == "alias":
             bad, h = check_alias_one(s)
